@@ -346,6 +346,7 @@ func newHist(r *vkit.R, id, nA, nB int) *hist {
 type witness struct {
 	History  int         `json:"history"`
 	Kind     string      `json:"removal"`
+	Pre      string      `json:"prehistory_of_the_removed_endpoint"`
 	A        []int       `json:"cluster_A_stubs"`
 	B        []int       `json:"cluster_B_stubs"`
 	Shared   bool        `json:"cluster_B_also_lists_the_removed_upstream"`
@@ -375,6 +376,50 @@ func runHistory(r *vkit.R, id int, g *vkit.Rand, longWait bool, hungProbe bool) 
 	nameA, nameB := fmt.Sprintf("a%d.c15.test", id), fmt.Sprintf("b%d.c15.test", id)
 	e1 := h.aStubs[0]
 	objA := h.clusterObject(nameA, "a", h.aStubs)
+	// pre-history of the endpoint that will be removed: it was disabled at some point (created disabled, or disabled
+	// later) and enabled again before anything else happens, i.e. its health checker was restarted by a spec update
+	pre := "none"
+	if !hungProbe && (longWait || g.Chance(0.45)) {
+		pre = []string{"created-disabled-then-enabled", "disabled-then-enabled"}[g.Intn(2)]
+		if longWait {
+			// the histories that wait > 5 s for a ticker probe cover both removal kinds with this pre-history
+			kind = []string{"endpoint-remove", "cluster-delete"}[id%2]
+		}
+	}
+	withE1Disabled := func() *proxyv1alpha1.UpstreamCluster {
+		o := objA.DeepCopy()
+		for i := range o.Spec.Servers {
+			if o.Spec.Servers[i].Endpoint == h.stubs[e1].URL {
+				t := true
+				o.Spec.Servers[i].Disabled = &t
+			}
+		}
+		return o
+	}
+	applyA := func(o *proxyv1alpha1.UpstreamCluster) bool {
+		if sr := h.gw.Apply(o); sr.Err != nil || sr.Panic != nil || sr.Requeue {
+			h.fail(fmt.Sprintf("controller did not apply a generated cluster: %+v", sr))
+			return false
+		}
+		if !h.gw.WaitAllReady(o, watchdog) {
+			h.fail("stub endpoints did not become ready within the watchdog")
+			return false
+		}
+		return true
+	}
+	switch pre {
+	case "created-disabled-then-enabled":
+		if !applyA(withE1Disabled()) {
+			return
+		}
+		time.Sleep(time.Duration(g.Range(0, 20)) * time.Millisecond)
+	case "disabled-then-enabled":
+		if !applyA(objA) || !applyA(withE1Disabled()) {
+			return
+		}
+		time.Sleep(time.Duration(g.Range(0, 20)) * time.Millisecond)
+	}
+	r.Count("prehistory_"+pre, 1)
 	bPol := append([]int(nil), h.bStubs...)
 	var bServers []string
 	for _, s := range h.bStubs {
@@ -516,13 +561,19 @@ func runHistory(r *vkit.R, id int, g *vkit.Rand, longWait bool, hungProbe bool) 
 		return
 	}
 	wit := func(st *stream, detail interface{}) witness {
-		return witness{History: id, Kind: kind, A: h.aStubs, B: h.bStubs, Shared: h.shared, Timing: timing, Stream: st, Detail: detail, Streams: len(h.streams), RemoveMs: float64(tRemoved-t0) / 1e6}
+		return witness{History: id, Kind: kind, Pre: pre, A: h.aStubs, B: h.bStubs, Shared: h.shared, Timing: timing, Stream: st, Detail: detail, Streams: len(h.streams), RemoveMs: float64(tRemoved-t0) / 1e6}
 	}
 	r.Eval(1)
 	r.Count("histories", 1)
 	r.Count("removal_"+kind, 1)
 	r.Count("timing_"+timing, 1)
-	r.Distinct(vkit.Hash64(kind, timing, fmt.Sprint(nA, nB, h.shared, hungProbe), streamShape(h.streams)))
+	r.Distinct(vkit.Hash64(kind, timing, pre, fmt.Sprint(nA, nB, h.shared, hungProbe), streamShape(h.streams)))
+	if pre != "none" && kind == "endpoint-remove" {
+		r.Count("endpoint_removals_after_disable_enable", 1)
+		if longWait {
+			r.Count("endpoint_removals_after_disable_enable_with_long_wait", 1)
+		}
+	}
 
 	// (a) + (d): new requests sent after the removing sync returned
 	nNew := g.Range(4, 10)
@@ -701,6 +752,8 @@ func runHistory(r *vkit.R, id int, g *vkit.Rand, longWait bool, hungProbe bool) 
 				class := "idle-at-removal"
 				if hungProbe && s == e1 {
 					class = "hung-probe-at-removal"
+				} else if pre != "none" && s == e1 {
+					class = "idle-at-removal-after-disable-enable"
 				}
 				r.Violation(fmt.Sprintf("C15/%s/probe-after-removal/%s", kind, class),
 					fmt.Sprintf("%s: the stub of the removed target logged %d /healthz probe(s) %v ms after the removing sync returned (class %s; probes within the first %v are not counted)", kind, len(late), late, class, settle),
@@ -756,7 +809,7 @@ func TestCheck(t *testing.T) {
 			"them, removed endpoint -> never receives them; (b) every request that was being proxied to the removed target ends on the client side AND at the stub within 5 s while all control " +
 			"streams keep delivering data; control streams (other cluster, other endpoints of A, B's stream to the same upstream) stay open and carry data; (c) no /healthz probe reaches the " +
 			"removed target later than 500 ms after the sync although TriggerHealthCheck is called on the retained EndpointInfo (some histories wait 6 s: ticker and probe timeout; some remove " +
-			"the target while its probe hangs); (d) the other cluster and the remaining endpoints answer new requests. Distinct = hash(removal kind, timing, topology, stream shapes).")
+			"the target while its probe hangs; in 45% of the histories - and in all long-wait ones - the endpoint had been disabled (at creation or later) and enabled again before, so its checker was restarted by a spec update); (d) the other cluster and the remaining endpoints answer new requests. Distinct = hash(removal kind, timing, topology, stream shapes).")
 		r.Assume("the 5 s promptness bound is judged only while the control streams of the same history deliver data (otherwise inconclusive)")
 		r.Assume("a probe logged by a stub within 500 ms after the removing sync returned is taken as already in flight when the sync returned")
 		r.Assume("not placed: a removal while the TCP dial to the upstream is still pending")
@@ -795,5 +848,7 @@ func TestCheck(t *testing.T) {
 		r.Require(r.Counter("new_requests_to_deleted_cluster") >= int64(tierN(r, 100, 1200)) && r.Counter("new_requests_to_remaining_endpoints") >= int64(tierN(r, 50, 600)), "too few new requests after removal")
 		r.Require(r.Counter("removed_targets_probe_checked") >= int64(tierN(r, 100, 1200)), "too few removed targets checked for probes")
 		r.Require(r.Counter("long_waits_after_removal") >= int64(long), "too few long waits after removal")
+		r.Require(r.Counter("endpoint_removals_after_disable_enable") >= int64(tierN(r, 15, 200)), "too few endpoint removals whose endpoint had been disabled and enabled before")
+		r.Require(r.Counter("endpoint_removals_after_disable_enable_with_long_wait") >= int64(tierN(r, 2, 10)), "too few endpoint removals after disable/enable followed by a > 5 s wait")
 	})
 }
